@@ -113,6 +113,9 @@ def read_bytes(
     for bom, prefix, encoding in _xml_prefixes:
         if body.startswith(bom):
             document = body.decode(encoding)
+            # The codecs with explicit endianness keep the mark.
+            if document.startswith('\ufeff'):
+                document = document[1:]
             return document, encoding, \
                 "text/xml" if document.startswith("<?xml") else None
 
